@@ -9,7 +9,7 @@ use crate::check::constrain::generate::{gen_vec, generate, Constrained};
 use crate::check::context::clss::{BOOL, FLOAT, INT, RANGE, SLICE, STRING};
 use crate::check::context::function::python::CONTAINS;
 use crate::check::context::function::python::{
-    ADD, DIV, EQ, FDIV, GE, GEQ, LE, LEQ, MOD, MUL, NEQ, POW, SUB,
+    ADD, DIV, EQ, FDIV, GE, GEQ, LE, LEQ, MOD, MUL, NEG, NEQ, POW, SUB,
 };
 use crate::check::context::function::SQRT;
 use crate::check::context::{Context, LookupClass};
@@ -62,7 +62,33 @@ pub fn gen_op(
         Node::Neq { left, right } => gen_magic(NEQ, ast, left, right, env, ctx, constr),
         Node::Eq { left, right } => gen_magic(EQ, ast, left, right, env, ctx, constr),
 
-        Node::AddU { expr } | Node::SubU { expr } => generate(expr, env, ctx, constr),
+        Node::AddU { expr } => {
+            constr.add(
+                "unary plus",
+                &Expected::from(ast),
+                &Expected::from(expr),
+                env,
+            );
+            generate(expr, env, ctx, constr)
+        }
+        Node::SubU { expr } => {
+            let access = Expected::new(
+                expr.pos,
+                &Access {
+                    entity: Box::new(Expected::from(expr)),
+                    name: Box::from(Expected::new(
+                        expr.pos,
+                        &Function {
+                            name: StringName::from(NEG),
+                            args: vec![Expected::from(expr)],
+                        },
+                    )),
+                },
+            );
+
+            constr.add("unary minus", &Expected::from(ast), &access, env);
+            generate(expr, env, ctx, constr)
+        }
         Node::Sqrt { expr } => {
             let ty = Type {
                 name: Name::from(FLOAT),
